@@ -36,7 +36,10 @@ RULE = ("real FsDropInService on a scratch directory (real inotify) with a real 
         "on the watcher thread; never executed).  After the script: wait for the watcher to go idle (inotify "
         "queue empty and thread in epoll_wait), 3 ticks, probe, 15 ms, tick, probe again.  non-trivial = at least "
         "two file operations and, at the end, an active drop-in or an invalid / dot file present")
-ASSUMPTIONS = ["data races, deadlock and lock-order inversions are OBSERVED (ThreadSanitizer on the schedules the "
+ASSUMPTIONS = [
+    "family overflow needs a writable /proc/sys/fs/inotify/max_queued_events (the harness gives the service under test a queue "
+    "of 16 events and restores the value at once); where it is read-only the bursts do not overflow and the family only "
+    "repeats the churn family (evidence: overflow_scenarios_with_small_queue)","data races, deadlock and lock-order inversions are OBSERVED (ThreadSanitizer on the schedules the "
                "sandbox and the par/seq modes produce), not proved; the Lean theorems cover the logic for every "
                "interleaving of the modelled atomic steps",
                "inotify delivers an event after the last change of every file and never overflows its queue "
@@ -307,6 +310,41 @@ def gen_recreate(rng):
     return b.scenario(mode=rng.choice(["seq", "seq", "par"]), tick_us=rng.choice([0, 100, 1000]))
 
 
+def gen_overflow(rng):
+    """more events than the service's inotify queue holds (the harness gives this service a queue of 16 events): a burst of
+    rewrites of two files; during the burst - when events are being dropped - other files are deleted, rewritten, created,
+    moved in or out.  After the burst the directory is quiet: the active set must still converge to the files present."""
+    b = Builder(rng, "overflow")
+    b.initial(rng.randint(2, 5))
+    names = [n for n, _ in b.init]
+    x, y = b.name(0), b.name(0)
+    while y == x:
+        y = b.name(0)
+    cx, cy = b.content(valid=True), b.content(valid=True)
+    b.ops += [{"op": "wait"}, {"op": "tick"}]
+    burst = rng.randint(60, 160)
+    at = sorted(rng.sample(range(20, burst), rng.randint(1, 4)))
+    for i in range(burst):
+        b.ops.append({"op": "write", "name": x, "cid": cx})
+        b.ops.append({"op": "write", "name": y, "cid": cy})
+        if i in at:
+            r = rng.random()
+            victim = rng.choice(names) if names else b.name(0)
+            if r < 0.4:
+                b.ops.append({"op": rng.choice(["delete", "moveout"]), "name": victim})
+            elif r < 0.7:
+                b.ops.append({"op": rng.choice(["write", "movein"]), "name": victim, "cid": b.content()})
+            elif r < 0.9:
+                b.ops.append({"op": rng.choice(["write", "movein"]), "name": b.name(0), "cid": b.content(valid=True)})
+            else:
+                b.ops.append({"op": "rename", "from": victim, "to": b.name(0)})
+    b.ops += [{"op": "wait"}, {"op": "tick"}, {"op": "us", "n": 100000}, {"op": "wait"}, {"op": "tick"}]
+    s = b.scenario()
+    s["yield_us"] = 0
+    s["queue_limit"] = 16
+    return s
+
+
 def gen_nodir(rng):
     b = Builder(rng, "nodir")
     for _ in range(rng.randint(0, 2)):
@@ -568,17 +606,17 @@ def gen_reload_race(rng):
 
 FAMILIES = {"rescan-race": gen_rescan_race, "startup": gen_startup, "realplugin": gen_realplugin, "same-content": gen_same_content, "reload-race": gen_reload_race, "churn": gen_churn, "par": lambda r: gen_churn(r, "par"),
             "rewrite-invalid": gen_rewrite_invalid, "badnum": gen_badnum, "recreate": gen_recreate,
-            "rename": gen_rename, "partial": gen_partial, "nodir": gen_nodir,
+            "rename": gen_rename, "partial": gen_partial, "nodir": gen_nodir, "overflow": gen_overflow,
             "long": lambda r: gen_churn(r, r.choice(["seq", "par"]), n=r.randint(40, 120))}
 
 
 def gen(rng, tier):
     n = {"quick": 2, "thorough": 50, "search": 3}[tier]
     plan = [("startup", 60), ("churn", 130), ("par", 130), ("rewrite-invalid", 60), ("badnum", 30), ("recreate", 90),
-            ("rename", 50), ("partial", 40), ("nodir", 30), ("long", 12), ("realplugin", 40), ("reload-race", 40), ("same-content", 90), ("rescan-race", 150)]
+            ("rename", 50), ("partial", 40), ("nodir", 30), ("long", 12), ("realplugin", 40), ("reload-race", 40), ("same-content", 90), ("rescan-race", 150), ("overflow", 3)]
     if tier == "search":
         plan = [("churn", 100), ("par", 100), ("rewrite-invalid", 80), ("recreate", 80), ("badnum", 40), ("startup", 40),
-                ("same-content", 80), ("rescan-race", 150)]
+                ("same-content", 80), ("rescan-race", 150), ("overflow", 10)]
     for fam, k in plan:
         for _ in range(k * n):
             yield FAMILIES[fam](rng)
@@ -630,6 +668,8 @@ def extra_coverage(results):
     return {"ticks_run": sum(t.get("ticks", 0) for _, t, _ in ok),
             "file_operations": sum(len(_fileops(s)) for s, _, _ in ok),
             "hook_items_replayed": sum(len(t.get("items", [])) for _, t, _ in ok),
+            "overflow_scenarios": sum(1 for s, _, _ in ok if s.get("queue_limit")),
+            "overflow_scenarios_with_small_queue": sum(1 for _, t, _ in ok if t.get("queue_limit_ok")),
             "linearisation_replay": ("on (trace hooks present in the tree)" if any(t.get("hooks") for _, t, _ in ok)
                                      else "off (no trace hooks in the tree: accepts = canonical schedule through the model)"),
             "level_note": "proof, partial: races / deadlock / inotify delivery observed under TSan, not proved"}
